@@ -133,7 +133,7 @@ PROPS["C03"] = {
                   "bounds": "limit <= 4 (string, byte string), <= 3 (read_array), <= 20 (chunk); declared length: all 2^32 values; unwind 5-30"},
         "thorough": {"groups": [{"filters": ["c03_q_", "lemma_utf8_valid"], "timeout": 1500, "jobs": 12},
                                 {"filters": ["c03_t_"], "timeout": 2400, "jobs": 2, "mem_gb": 30}],
-                     "bounds": "adds the Variant array length (mask 0x86) and the dimensions array of a multi-dimensional Variant array"},
+                     "bounds": "adds the dimensions array of a multi-dimensional Variant array (the Variant array-length instance c03_x_variant_array_limit is not registered: 131 s once, later out of memory / > 30 min at 20 GB)"},
     },
 }
 
